@@ -42,6 +42,26 @@ theorem C14_root_by_position (H : Bytes → Bytes) (txids : List Bytes) (hne : t
     Spec.Bip37.merkleRoot H txids = some (Spec.Bip37.rootByPosition H txids) :=
   merkleRoot_eq_rootByPosition H txids hne
 
+/-- small cases written out: one id is its own root; two ids hash together; three ids duplicate the last -/
+theorem C14_root_small (H : Bytes → Bytes) (a b c : Bytes) :
+    merkleRoot H [a] = .ok a ∧ merkleRoot H [a, b] = .ok (H (a ++ b)) ∧
+    merkleRoot H [a, b, c] = .ok (H (H (a ++ b) ++ H (c ++ c))) := by
+  refine ⟨?_, ?_, ?_⟩
+  · obtain ⟨r, hr, hm⟩ := C14_root_eq_spec H [a] (by simp)
+    rw [hm]; congr 1
+    have : Spec.Bip37.merkleRoot H [a] = some a := by simp [Spec.Bip37.merkleRoot]
+    rw [this] at hr; injection hr with hr; exact hr.symm
+  · obtain ⟨r, hr, hm⟩ := C14_root_eq_spec H [a, b] (by simp)
+    rw [hm]; congr 1
+    have : Spec.Bip37.merkleRoot H [a, b] = some (H (a ++ b)) := by
+      simp [Spec.Bip37.merkleRoot, Spec.Bip37.pairUp]
+    rw [this] at hr; injection hr with hr; exact hr.symm
+  · obtain ⟨r, hr, hm⟩ := C14_root_eq_spec H [a, b, c] (by simp)
+    rw [hm]; congr 1
+    have : Spec.Bip37.merkleRoot H [a, b, c] = some (H (H (a ++ b) ++ H (c ++ c))) := by
+      simp [Spec.Bip37.merkleRoot, Spec.Bip37.pairUp]
+    rw [this] at hr; injection hr with hr; exact hr.symm
+
 /-! ## Depth -/
 
 /-- The integer depth computation `32 - (n-1).leading_zeros()` is `⌈log2 n⌉` — the least `d` with
